@@ -416,11 +416,19 @@ def rule_coordinates(chk, prog):
   B = alg.Algebra(ev, strip_index=False)
   ps2 = B.name(lambda t: t == S('surface_pressure'), 'ps', positive=True)
   sl = lambda base, a0, a1: Term('sub', base, Term('slice', a0, a1, sym.NONE))
-  hb = [t for t in sym.walk(b['xp']) if t.k == 'bin' and t.a[0] == '+' and 'a_boundaries' in sym.show(t) and 'b_boundaries' in sym.show(t) and t.a[1].k == 'bin' and t.a[1].a[0] == '/']
-  okh = bool(hb)
+  # xp = (h[1:] + h[:-1]) / 2 with h = a_boundaries / pₛ + b_boundaries (normal forms; operand order is irrelevant)
+  bases = {t.a[0] for t in sym.walk(b['xp']) if t.k == 'sub' and t.a[1].k == 'slice'}
+  okh = len(bases) == 1
   if okh:
-    h = hb[0]
-    okh = b['xp'] == Term('bin', '/', Term('bin', '+', sl(h, sym.const(1), sym.NONE), sl(h, sym.NONE, sym.const(-1))), sym.const(2)) and sym.show(h) == '((hybrid_coords.a_boundaries / surface_pressure) + hybrid_coords.b_boundaries)'
+    h = list(bases)[0]
+    Bh = alg.Algebra(ev, strip_index=False, opaque=lambda t: t == h)
+    hat = lambda a0, a1: Bh.conv(sl(h, a0, a1))
+    okh = alg.equal(Bh.conv(b['xp']), (hat(sym.const(1), sym.NONE) + hat(sym.NONE, sym.const(-1))) / 2)
+    Ch = alg.Algebra(ev)
+    ca = Ch.name(lambda t: t.k == 'attr' and t.a[1] == 'a_boundaries', 'a')
+    cb = Ch.name(lambda t: t.k == 'attr' and t.a[1] == 'b_boundaries', 'b')
+    cp = Ch.name(lambda t: t == S('surface_pressure'), 'ps', positive=True)
+    okh = okh and alg.equal(Ch.conv(h), ca / cp + cb)
   chk.check(okh, rule, f'{site}: source coordinates are the centers (midpoints) of the hybrid boundaries a/pₛ + b in sigma units', sym.show(b['xp'], maxdepth=5)[:160], loc)
   chk.check(alg.equal(A.conv(b['x']), sig) and b['fp'] == S('fields'), rule, f'{site}: queries are the sigma centers; the field supplies the known values', sym.show(b['x'], maxdepth=4)[:100], loc)
   # surface pressure
